@@ -118,7 +118,9 @@ contract(NE, props=['C13'], returns='ParsedOperand?',
          may_raise={'SystemExit': 'True', 'SyntaxError': 'True', 'KeyError': 'True'},
          ensures=['implies(result is not None, result._argument is not None and isa(result._argument, "ExpressionByteCodePart")'
                   ' and not mentions_register(result._argument._parsed_expression, register_labels))',
-                  'implies(result is not None, result._operand is self)'],
+                  'implies(result is not None, result._operand is self)',
+                  # the text kept with the parsed operand is the text it was given (C10: what @OP(n) expands to)
+                  'implies(result is not None, result._operand_str == operand)'],
          modifies=[], allocates=True, no_frame_check=True)
 
 # ---- operand sets of a variant: one alternative per position, disallowed combinations skipped --------------------------
